@@ -83,4 +83,5 @@ KEYWORD_FILTERS = ["a sub 1 eq 2", "a div 2 eq 1", "a mul 2 lt 3", "a is null", 
 # literal spellings whose content needs quoting care, as TEXT (parsed by the real parser in the round-trip checks)
 QUOTED_LITERAL_FILTERS = ["geo.intersects(a, geography'it''s')", "geography'a''''b' eq x", "x eq geography''''", "x eq geography''", "name eq 'it''s'", "name eq ''''",
                           "name eq 'a''''b' and geography'''x''' ne y", "f.g(p=geography'q''r', s='t''u')", "x in (geography'a''b', 'c''d', '''')",
-                          "d eq DURATION'p1dt2h' or d eq duration'-PT0.5S'", "k/any(v: v eq geography'L''Aquila POINT(1 2)')"]
+                          "d eq DURATION'p1dt2h' or d eq duration'-PT0.5S'", "k/any(v: v eq geography'L''Aquila POINT(1 2)')",
+                          "tags/any(row.t: row.t eq 'a')", "a/b/all(ns.v: ns.v/x gt 1 and c/any(m.w: m.w eq ns.v/y))", "n.a/any(n.a: n.a eq 1)"]
